@@ -39,6 +39,9 @@ var (
 	repoDir     = "/repo"
 	outBase     = filepath.Join(verifDir, "out")
 	evidenceDir = filepath.Join(verifDir, "evidence")
+	// harnessDir: development runs on a scratch copy may read a snapshot of the harness directory
+	// (VERIF_HARNESS, honoured only together with VERIF_REPO) so that editing goes on meanwhile
+	harnessDir = filepath.Join(verifDir, "harness")
 )
 
 func init() {
@@ -49,6 +52,9 @@ func init() {
 			outBase = filepath.Join(r, ".verif_out")
 		}
 		evidenceDir = filepath.Join(outBase, "evidence")
+		if h := os.Getenv("VERIF_HARNESS"); h != "" {
+			harnessDir = h
+		}
 	}
 }
 
@@ -160,12 +166,12 @@ type loaded struct {
 
 func harnessFiles() map[string][]string {
 	out := map[string][]string{}
-	dirs, _ := os.ReadDir(filepath.Join(verifDir, "harness"))
+	dirs, _ := os.ReadDir(harnessDir)
 	for _, d := range dirs {
 		if !d.IsDir() {
 			continue
 		}
-		fs, _ := filepath.Glob(filepath.Join(verifDir, "harness", d.Name(), "*.go"))
+		fs, _ := filepath.Glob(filepath.Join(harnessDir, d.Name(), "*.go"))
 		sort.Strings(fs)
 		// nested package dirs use "__" for "/": stdlib__builtin
 		out[d.Name()] = fs
@@ -195,7 +201,7 @@ type rewriteSpec struct {
 }
 
 func genRewrites(ld *loaded, pkgDir string) error {
-	b, err := os.ReadFile(filepath.Join(verifDir, "harness", pkgDir, "rewrites.json"))
+	b, err := os.ReadFile(filepath.Join(harnessDir, pkgDir, "rewrites.json"))
 	if err != nil {
 		return nil
 	}
@@ -238,7 +244,7 @@ func genRewrites(ld *loaded, pkgDir string) error {
 }
 
 func genIntrinsics(pkgDir string) (string, error) {
-	tmpl, err := os.ReadFile(filepath.Join(verifDir, "harness", "intrinsics.go.tmpl"))
+	tmpl, err := os.ReadFile(filepath.Join(harnessDir, "intrinsics.go.tmpl"))
 	if err != nil {
 		return "", err
 	}
